@@ -309,7 +309,8 @@ PROPERTIES = {
     "C11": dict(
         groups=[
             E_CODECS(
-        harnesses=[dict(func="VerifC11Int64Decoder", reach=["C11/int64/accepted", "C11/int64/rejected"], quick=dict(budget=200), thorough=dict(budget=600)),
+        harnesses=[dict(func="VerifC11FlattenChildDecoder", reach=["C11/flatten-child/accepted", "C11/flatten-child/rejected"], quick=dict(budget=200), thorough=dict(budget=600)),
+                   dict(func="VerifC11Int64Decoder", reach=["C11/int64/accepted", "C11/int64/rejected"], quick=dict(budget=200), thorough=dict(budget=600)),
                    dict(func="VerifC11TopLevel", reach=["C11/top-level/decided"], quick=dict(budget=200), thorough=dict(budget=600)),
                    dict(func="VerifC11OneofDecoder", reach=["C11/oneof/decided"], quick=dict(budget=200), thorough=dict(budget=600)),
                    dict(func="VerifC11TimeDecoder", reach=["C11/time/accepted", "C11/time/rejected"], quick=dict(budget=200), thorough=dict(budget=600)),
